@@ -143,7 +143,7 @@ public:
     //       - acquire-load synchronizes-with the release-stores (21, 28)
     //       - release-store synchronizes-with the acquire-loads (15, 17, 18, 22, 26)
     marked_ptr prev = set_mark_flag(block->prev, std::memory_order_acq_rel);
-    marked_ptr next = set_mark_flag(block->next, std::memory_order_relaxed);
+    marked_ptr next = set_mark_flag(block->next, std::memory_order_acquire);
 
     bool fully_removed = remove_from_prev_list(prev, block, next);
     if (!fully_removed) {
@@ -263,7 +263,7 @@ private:
 
       // check if the block is already deleted
       if (next.get() == prev.get()) {
-        next = b->next.load(std::memory_order_relaxed);
+        next = b->next.load(std::memory_order_acquire);
         return false;
       }
 
@@ -308,7 +308,7 @@ private:
       }
 
       if (next_stamp < my_stamp) {
-        next = b->next.load(std::memory_order_relaxed);
+        next = b->next.load(std::memory_order_acquire);
         return false;
       }
 
@@ -488,11 +488,11 @@ private:
   }
 
   static marked_ptr set_mark_flag(concurrent_ptr& ptr, std::memory_order order) {
-    auto link = ptr.load(std::memory_order_relaxed);
+    auto link = ptr.load(std::memory_order_acquire);
     for (;;) {
       if (((link.mark() & DeleteMark) != 0) ||
           ptr.compare_exchange_weak(
-            link, marked_ptr(link.get(), link.mark() | DeleteMark), order, std::memory_order_relaxed)) {
+            link, marked_ptr(link.get(), link.mark() | DeleteMark), order, std::memory_order_acquire)) {
         return link;
       }
     }
